@@ -11,6 +11,11 @@ uint8_t* ir_memcpy(uint8_t* d, uint8_t* s, uint64_t n);
 uint8_t* ir_memmove(uint8_t* d, uint8_t* s, uint64_t n);
 uint8_t* ir_memset(uint8_t* d, uint8_t c, uint64_t n);
 uint8_t* ir_alloc_exception(uint64_t n);
+uint32_t ir_memcmp(uint8_t* a, uint8_t* b, uint64_t n);
+uint32_t ir_strncmp(uint8_t* a, uint8_t* b, uint64_t n);
+uint32_t ir_strcmp(uint8_t* a, uint8_t* b);
+uint64_t ir_strlen(uint8_t* s);
+uint8_t* ir_memchr(uint8_t* s, uint32_t c, uint64_t n);
 void ir_throw_event(int kind);
 extern uint64_t ir_live_allocs; /* blocks obtained from operator new and not yet deleted */
 extern int ir_throw_allowed;   /* exception kind the active contract allows (0 = none) */
